@@ -66,6 +66,21 @@ def run(ctx):
             ev += 1
             if not dom.relclose(a + b, dq, 1e-7) or not (a >= 0 and b >= 0 and dq > 0):
                 bad("quadrature pseudopressure is not additive / increasing over adjacent intervals", dict(**inp, p=[float(P[i]), float(P[kmid]), float(P[j])]), dict(a=a, b=b, total=dq))
+        # pressures at, just around and below the reference pressure, default and custom reference
+        for pstd in (14.7, float(rng.uniform(200, 1500))):
+            pts = np.array([0.6 * pstd, 0.9 * pstd, pstd, 1.1 * pstd, 2.0 * pstd])
+            pts = pts[pts / ppc <= 30]
+            mv = np.array([gas.pseudopressure_Hussainy(g["T"], float(x), tpc, ppc, g["sg"], pstd) for x in pts])
+            ev += 1
+            iref = int(np.argmin(np.abs(pts - pstd)))
+            if abs(mv[iref]) > 1e-9 * abs(mv[-1]) or np.any(np.diff(mv) <= 0):
+                bad("quadrature pseudopressure is not zero at its reference pressure / not strictly increasing across it",
+                    dict(**inp, pressure_standard=pstd, pressures=[float(x) for x in pts]), [float(x) for x in mv])
+            # additivity through an intermediate pressure on the other side of the reference
+            a = gas.pseudopressure_Hussainy(g["T"], float(pts[-1]), tpc, ppc, g["sg"], float(pts[0]))
+            b1 = mv[-1] - mv[0]
+            if not dom.relclose(a, b1, 1e-7):
+                bad("pseudopressure differences are not additive across the reference pressure", dict(**inp, pressure_standard=pstd), dict(direct=a, via_reference=b1))
         ev += 1
         m0 = gas.pseudopressure_Hussainy(g["T"], 14.7, tpc, ppc, g["sg"])
         if abs(m0) > 1e-6:
